@@ -85,6 +85,8 @@ class SubSpace:
 def root_space(ax):
     while isinstance(ax, SubSpace):
         ax = ax.parent
+    if hasattr(ax, "root"):  # frames.RowAxis
+        ax = ax.root
     return ax
 
 
@@ -136,6 +138,10 @@ def real(t):
 def same_axis(a, b):
     if a is b:
         return True
+    if hasattr(a, "doms") and hasattr(b, "doms"):
+        from .frames import same_rows
+
+        return same_rows(a, b)
     if isinstance(a, SubSpace) and isinstance(b, SubSpace):
         return same_axis(a.parent, b.parent) and z3.eq(z3.simplify(a.mask), z3.simplify(b.mask))
     return False
